@@ -95,6 +95,10 @@ type Options struct {
 	Genesis  map[string]json.RawMessage // optional full app state (C20 import)
 	GenTime  time.Time
 	InitialH int64
+	// NoFirstBlock leaves the chain right after InitChain + Commit (no BeginBlock yet).
+	NoFirstBlock bool
+	// PostInit runs on the deliver-state context between InitChain and its Commit.
+	PostInit func(ctx sdk.Context, app *chain.App)
 }
 
 func derive(seed uint64, i int, tag string) []byte {
@@ -208,10 +212,35 @@ func NewChain(o Options) *Chain {
 		ChainId: o.ChainID, Validators: []abci.ValidatorUpdate{}, ConsensusParams: consensusParams,
 		AppStateBytes: stateBytes, Time: o.GenTime, InitialHeight: o.InitialH,
 	})
+	if o.PostInit != nil {
+		o.PostInit(app.BaseApp.NewContext(false, tmproto.Header{ChainID: o.ChainID, Height: o.InitialH, Time: o.GenTime}), app)
+	}
 	app.Commit()
 	c := &Chain{App: app, ChainID: o.ChainID, Height: app.LastBlockHeight(), Time: o.GenTime, ValHash: valSet.Hash(), Accs: accs}
+	if o.NoFirstBlock {
+		c.Ctx = app.BaseApp.NewContext(true, c.header())
+		return c
+	}
 	c.beginBlock(0)
 	return c
+}
+
+// Export ends and commits the open block and exports the application state
+// the way `comdex export` does.
+func (c *Chain) Export() (map[string]json.RawMessage, int64, error) {
+	if c.InBlock {
+		c.EndBlockOnly()
+	}
+	c.Ctx = c.App.BaseApp.NewContext(true, c.header())
+	exp, err := c.App.ExportAppStateAndValidators(false, nil, nil)
+	if err != nil {
+		return nil, 0, err
+	}
+	var gs map[string]json.RawMessage
+	if err := json.Unmarshal(exp.AppState, &gs); err != nil {
+		return nil, 0, err
+	}
+	return gs, exp.Height, nil
 }
 
 func (c *Chain) header() tmproto.Header {
